@@ -60,7 +60,7 @@ func c12Case(r *core.Run, idx int, rng *rand.Rand) {
 	ref := refAttributes(u)
 	for i := rng.Intn(7); i > 0; i-- {
 		var a spsim.QAttr
-		switch rng.Intn(6) {
+		switch rng.Intn(7) {
 		case 0, 1: // matching
 			x := ref[rng.Intn(len(ref))]
 			a = spsim.QAttr{Name: x.Name, NameFormat: x.Format}
@@ -74,6 +74,15 @@ func c12Case(r *core.Run, idx int, rng *rand.Rand) {
 				a = q.Attrs[rng.Intn(len(q.Attrs))]
 			} else {
 				a = spsim.QAttr{Name: "UserName", NameFormat: basicFormat}
+			}
+		case 5: // another split of the same Name+NameFormat concatenation
+			x := ref[rng.Intn(len(ref))]
+			full := x.Name + x.Format
+			k := rng.Intn(len(full) + 1)
+			a = spsim.QAttr{Name: full[:k], NameFormat: full[k:]}
+			if a.Name == "" {
+				a.Name = full
+				a.NameFormat = ""
 			}
 		default: // case / blank near-misses
 			x := ref[rng.Intn(len(ref))]
